@@ -61,6 +61,10 @@ def check(run, project):
     from .c09 import s3
     s3(run, roles, L)  # which session bit makes the first parameter opaque (decrypt for commands, encrypt for responses)
     helper_semantics(run, project, roles)
+    # W8: a decode starts from its own empty region list (a shared default would charge this decode with regions
+    # another decode left open, and reject a well-formed encoding)
+    from .c03 import r4
+    r4(run, roles)
     run.floor("W0", 700, "pinned types")
     run.floor("W1", 719, "types classified")
     run.floor("W3", 7, "container walkers")
